@@ -60,6 +60,7 @@ func runC10(p *Prog, r *Report) {
 	umbrellaSettingRule(p, r, "C10.R7")
 	typeStringOpaqueRule(p, r, "C10.R8")
 	zeroValueTableRule(p, r, "C10.R9")
+	fieldsAccessorRule(p, r, "C10.R10")
 	r.Rule("C10.R5", "only the target is written: every emitted `=`/`:=`/`++` has a left-hand side derived from assignTo, a fresh local or `_` (same analysis as C04.R2)", 1)
 	sub2 := newReport("C04", r.Tier)
 	c04R1R2(p, sub2, "C04.R1", "C04.R2")
@@ -613,6 +614,7 @@ func runC11(p *Prog, r *Report) {
 	constructorAlwaysUsedRule(p, r, "C11.R10")
 	updateReachesGuardRule(p, r, "C11.R12")
 	roleOrderRule(p, r, "C11.R13")
+	updatePositionSufficesRule(p, r, "C11.R14")
 	mustAssignRule(p, r, "C11.R6")
 }
 
